@@ -249,6 +249,7 @@ func runC12(env *core.Env, ci any) {
 	env.Sched.Knobs.MaxSteps = 100000
 	env.Sched.Knobs.Horizon = 5 * time.Hour
 	sut.Install(env)
+	env.AcctInexact = true // (C13 mode) clients here abandon exchanges on purpose: only gauges and inequalities are judged
 	w := &c12World{env: env, c: c, seen: map[string]int{}, faultAt: -1}
 	ca := simtls.NewCA("verifsim CA")
 	otherCA := simtls.NewCA("verifsim untrusted CA")
